@@ -1,4 +1,7 @@
+#[cfg(not(feature = "verif-sim"))]
 use std::fs::{self, File};
+#[cfg(feature = "verif-sim")]
+use crate::common::simio::{self as fs, File};
 use std::io::{BufWriter, Write};
 use std::path::PathBuf;
 
@@ -27,6 +30,8 @@ pub struct CsvDump {
 
 impl CsvDump {
     fn create_writer(cap: usize, path: PathBuf) -> Result<BufWriter<File>> {
+        #[cfg(feature = "verif-sim")]
+        let cap = crate::common::simio::knob("writer_cap", cap);
         Ok(BufWriter::with_capacity(cap, File::create(path)?))
     }
 }
